@@ -257,10 +257,9 @@ def cases(tier):
                 for nww, alt in (five if quick else nine):
                     out.append({"ops": [e], "gs": g, "graph": 1, "nww": nww, "alt": alt, "stop": stop, "est": 1})
         for g in (QUICK_SUBSETS[:2] if quick else SUBSETS3):
-            for stop in ((0,) if quick else (0, 1)):
-                out.append({"ops": [e], "gs": g, "graph": 0, "nww": 0, "alt": "", "stop": stop})
-                for nww, alt in ([(1, "")] if quick else nine):
-                    out.append({"ops": [e], "gs": g, "graph": 1, "nww": nww, "alt": alt, "stop": stop, "est": 1})
+            out.append({"ops": [e], "gs": g, "graph": 0, "nww": 0, "alt": "", "stop": 0})
+            for nww, alt in ([(1, "")] if quick else five):
+                out.append({"ops": [e], "gs": g, "graph": 1, "nww": nww, "alt": alt, "stop": 0, "est": 1})
     # axis B: words of length 2
     sub = [LETTERS[i] for i in SUB12] if quick else LETTERS
     g2 = ["ROTATIONS_PLUS_CNOT", "RX,RY,CZ,GlobalPhase"] if quick else ["ROTATIONS_PLUS_CNOT", "CLIFFORD_T_PLUS_RZ", "RX,RY,CZ,GlobalPhase", "H,T,CNOT"]
